@@ -19,6 +19,8 @@ def _t5(fails):
 
 def replay(case):
     prop = case["params"]["prop"]
+    if prop == "C13":
+        return replay_c13(case)
     doc = doc_of(case)
     obs = {"doc": doc}
     sel = case["params"].get("selection", "default")
@@ -39,6 +41,8 @@ def replay(case):
         return replay_c12(case, doc, obs)
     if prop == "C14":
         return replay_c14(case, doc, obs)
+    if prop == "C16":
+        return replay_c16(case, doc, obs)
     raise ValueError(prop)
 
 
@@ -185,4 +189,128 @@ def replay_c14(case, doc, obs):
         return {"violates": False, "observed": dict(obs, err=o["err"][:2])}
     v = scan_props.c14(log, ds, toks, enabled=not disabled)
     obs.update(calls="".join(e[0][0] for e in log)[:200], violations=v)
+    return {"violates": bool(v), "observed": obs}
+
+
+def replay_c16(case, doc, obs):
+    from pymarkdown.api import PyMarkdownApi, PyMarkdownApiException
+
+    disable = case["params"].get("disable")
+    pre = (["-d", disable] if disable else []) + (["--stack-trace"] if case["params"].get("stack_trace") else [])
+
+    def api():
+        a = PyMarkdownApi(inherit_logging=True)
+        return a.disable_rule_by_identifier(disable) if disable else a
+
+    def tup(res):
+        return [(f.line_number, f.column_number, f.rule_id, f.rule_name, f.extra_error_information) for f in res.scan_failures]
+
+    routes, fixed = {}, {}
+    with Sandbox() as sb:
+        sb.write(F, doc)
+        o = real_main(sb, pre + ["scan", F])
+        routes["scan-file"] = None if any("Error" in e for e in o["err"]) else _t5(o["fails"])
+        o2 = real_main(sb, pre + ["scan-stdin"], stdin=doc)
+        routes["scan-stdin"] = None if any("Error" in e for e in o2["err"]) else _t5(o2["fails"])
+        if doc:
+            try:
+                routes["api-scan_string"] = tup(api().scan_string(doc))
+            except PyMarkdownApiException:
+                routes["api-scan_string"] = None
+        try:
+            routes["api-scan_path"] = tup(api().scan_path(sb.path(F)))
+        except PyMarkdownApiException:
+            routes["api-scan_path"] = None
+        # diagnostics options change nothing (real logging, real handlers)
+        for extra in (["--log-level", "DEBUG"], ["--log-level", "INFO", "--stack-trace"]):
+            import logging
+
+            lvl = logging.getLogger().level
+            try:
+                from pymarkdown.main import PyMarkdownLint
+
+                from checks.app_real import _collecting_presentation
+
+                pres = _collecting_presentation()
+                logf = sb.path("/vfs/log.txt")
+                try:
+                    PyMarkdownLint(presentation=pres).main(extra + ["--log-file", logf] + pre + ["scan", sb.path(F)])
+                except SystemExit:
+                    pass
+                routes["scan-file " + " ".join(extra)] = None if any("Error" in e for e in pres.err) else [(f.line_number, f.column_number, f.rule_id, f.rule_name, f.extra_error_information) for f in pres.fails]
+            finally:
+                logging.getLogger().setLevel(lvl)
+        o3 = real_main(sb, pre + ["fix", F])
+        fixed["fix-file"] = None if (any("Error" in e for e in o3["err"]) or o3["code"] == 1) else sb.read(F)
+        if doc:
+            try:
+                fixed["api-fix_string"] = api().fix_string(doc).fixed_file
+            except PyMarkdownApiException:
+                fixed["api-fix_string"] = None
+        left = sb.temp_leftovers()
+    v = scan_props.c16(routes, fixed)
+    if left:
+        v.append({"kind": "temp-file-left", "detail": {"files": left}})
+    obs.update(routes={k: (None if r is None else len(r)) for k, r in routes.items()}, violations=v)
+    return {"violates": bool(v), "observed": obs}
+
+
+A, B = "/vfs/a.md", "/vfs/b.md"
+
+
+def docs_of_c13(case):
+    p = case["params"]
+    n1 = len(p["holes1"])
+    cells = [case["vars"][f"c{i}"] for i in range(n1 + len(p["holes2"]))]
+    d1 = list(p["sk1"])
+    for k, h in enumerate(p["holes1"]):
+        d1[h] = chr(cells[k])
+    d2 = list(p["sk2"])
+    for k, h in enumerate(p["holes2"]):
+        d2[h] = chr(cells[n1 + k])
+    return "".join(d1), "".join(d2)
+
+
+def replay_c13(case):
+    from pymarkdown.api import PyMarkdownApi, PyMarkdownApiException
+
+    p = case["params"]
+    d1, d2 = docs_of_c13(case)
+    obs = {"d1": d1, "d2": d2}
+    pre = rule_args(p.get("selection", "default"))
+    mode = p.get("mode", "scan")
+    if p.get("api"):
+        if not d1 or not d2:
+            return {"violates": False, "observed": obs}
+        try:
+            one = PyMarkdownApi(inherit_logging=True)
+            one.scan_string(d1)
+            rm = one.scan_string(d2)
+            rs = PyMarkdownApi(inherit_logging=True).scan_string(d2)
+        except PyMarkdownApiException as e:
+            obs["api_exception"] = str(e)[:200]
+            return {"violates": False, "observed": obs}
+        t = lambda r: [(f.line_number, f.column_number, f.rule_id, f.rule_name, f.extra_error_information) for f in r.scan_failures]
+        pe = lambda r: [(x.line_number, x.pragma_error) for x in r.pragma_errors]
+        v = scan_props.c13(t(rm), t(rs), pe(rm), pe(rs), "", "", False, False)
+        obs["violations"] = v
+        return {"violates": bool(v), "observed": obs}
+    with Sandbox() as sb:
+        sb.write(A, d1)
+        sb.write(B, d2)
+        om = real_main(sb, pre + [mode, A, B])
+        mt = sb.read(B)
+    with Sandbox() as sb:
+        sb.write(B, d2)
+        os_ = real_main(sb, pre + [mode, B])
+        st = sb.read(B)
+    if any("Error" in e for e in om["err"] + os_["err"]):
+        obs["err"] = (om["err"] + os_["err"])[:2]
+        return {"violates": False, "observed": obs}
+    mf = [tuple(f[1:]) for f in om["fails"] if f[0] == B]
+    sf = [tuple(f[1:]) for f in os_["fails"]]
+    mp = [tuple(x[1:]) for x in om["pragma"] if x[0] == B]
+    sp = [tuple(x[1:]) for x in os_["pragma"]]
+    v = scan_props.c13(mf, sf, mp, sp, mt, st, B in om["fixed"], B in os_["fixed"])
+    obs["violations"] = v
     return {"violates": bool(v), "observed": obs}
